@@ -98,6 +98,11 @@ def run(prog: Program, col: Collector, tier: str, refs: Optional[Refs] = None, c
     col.rule("R07.10", "a metaclass __call__ hands identity-keyed arguments on as the very objects it received", floor=1)
     _identity_arguments_unchanged(prog, col, refs, cat)
 
+    # ---------------------------------------------------------------- R07.11 (engine shared with R16.12)
+    col.rule("R07.11", "every term / op / type class gets its own interning table (created for the class itself, not found by inheritance)", floor=3)
+    from .c16 import _per_class_state
+    _per_class_state(prog, col, refs, cat)
+
     # ---------------------------------------------------------------- R07.6
     col.rule("R07.6", "identity hooks: __hash__/__copy__/__reduce__ and pickling go through the interning constructors", floor=8)
     _identity_hooks(prog, col, refs, cat)
@@ -182,6 +187,7 @@ def _key_coverage(prog: Program, col: Collector, refs: Refs, cat: Catalogue):
             col.violation(construct, why, mk.loc(r))
         else:
             col.unresolved(construct, why, mk.loc(r))
+    _no_hash_in_key(col, mk)
     # reflect: key computed from the args that the constructor receives
     rf = require_func(prog, "funsor.terms::reflect")
     mod = rf.module
@@ -279,9 +285,22 @@ def _key_coverage(prog: Program, col: Collector, refs: Refs, cat: Catalogue):
                         col.check(not missing, f"{m.fq}::{what_} components in key", f"a {what_} contributes {', '.join(sorted(parts))} to the key",
                                   f"a {what_} argument contributes only {sorted(attrs)} to the key ({sorted(missing)} dropped): ops built from arguments that differ "
                                   "there are the same object", m.loc(n))
+        _no_hash_in_key(col, m)
         col.check(set(params) <= used and not sliced and bool(rets), f"{m.fq}::covers args and kwargs",
                   "the key is derived from both the positional and the keyword parameters",
                   f"hash_args_kwargs ignores part of its input ({sorted(set(params) - used) or 'sliced'}): differently parametrised ops would be the same object", m.loc())
+
+
+def _no_hash_in_key(col: Collector, m: Func):
+    """The key of an interning table is compared with ==, so it must be an injective image of the arguments.  hash(...) is not
+    (hash(-1) == hash(-2) in CPython, floats and ints that compare equal share a hash, 64 bits in general): a table keyed by
+    hashes answers a request with an object built from different arguments."""
+    calls = [n for n in walk_no_nested(m.node) if isinstance(n, ast.Call) and isinstance(n.func, ast.Name) and n.func.id == "hash"]
+    calls += [n for n in walk_no_nested(m.node) if isinstance(n, ast.Call) and isinstance(n.func, ast.Attribute) and n.func.attr == "__hash__"]
+    construct = f"{m.fq}::key is the arguments, not their hash"
+    col.check(not calls, construct, "the key is built from the argument values (or the identity of unhashable ones)",
+              f"the key is `{norm(calls[0])[:60]}`: distinct arguments with equal hashes (-1 and -2, or any 64-bit collision) are filed under one key, so the second "
+              "request returns the object built for the first" if calls else "", m.loc(calls[0]) if calls else m.loc())
 
 
 def _reaches(cfg: CFG, a, b) -> bool:
